@@ -72,6 +72,15 @@ def cases(tier, seed):
                     out.append({"n": n, "plan": [127] if n > 100 else [3, 127], "crc": crc, "stall": "ack",
                                 "D": 1 if n <= 64 or tier == "thorough" and n <= 150 else 0, "seed": seed,
                                 "buffering": buf, "piece": piece})
+    # length sweep: every length up to two full 127-segment blocks (thorough: four), undisturbed, block-size plan / CRC /
+    # payload family rotating with the length; long transfers in one write() with small blocks
+    top = 1800 if tier == "quick" else 3600
+    plans_sw = ([127], [1], [2, 3], [5, 1, 127], [126, 3], [64])
+    for n in range(65, top + 1):
+        out.append({"n": n, "plan": plans_sw[n % len(plans_sw)] if n % 6 != 1 or n < 300 else [127], "crc": ("granted", "not-requested", "refused")[(n // 2) % 3],
+                    "stall": "ack", "D": 0, "seed": seed, "fill": simenv.FILLS[(n // 3) % len(simenv.FILLS)]})
+    for n, plan in ((7100, [1]), (10000, [1]), (10000, [2, 1]), (20000, [7, 3, 5])) + (((70000, [7, 3, 5]), (70000, [127])) if tier == "thorough" else ()):
+        out.append({"n": n, "plan": plan, "crc": "granted", "stall": "ack", "D": 0, "seed": seed})
     if tier == "thorough":
         for n in (888, 889, 890, 1778, 10000):
             for plan in ((127,), (1,), (2, 3), (5, 1, 127), (126, 3)):
@@ -86,7 +95,7 @@ def cases(tier, seed):
 
 def one(case, ch):
     n = case["n"]
-    payload = simenv.pattern(n, case.get("seed", 0))
+    payload = simenv.fill(n, case.get("seed", 0), case.get("fill", "pattern"))
     srv = StrictSdoServer(5, blk_plan=tuple(case["plan"]), crc=case["crc"] != "refused")
     srv.expected_mux = struct.pack("<HB", *MUX)
     state = {"seg": 0, "drops": []}
